@@ -127,7 +127,16 @@ func (c *Controller) untaintNewestN(nodes []*v1.Node, nodeGroup *NodeGroupState,
 	}
 	sort.Sort(sorted)
 
-	untaintedIndices := make([]int, 0, n)
+	// n comes from the utilisation arithmetic and can be far larger than the number of
+	// candidates; never pre-allocate more than there are nodes
+	capacity := n
+	if capacity > len(nodes) {
+		capacity = len(nodes)
+	}
+	if capacity < 0 {
+		capacity = 0
+	}
+	untaintedIndices := make([]int, 0, capacity)
 	for _, bundle := range sorted {
 		// stop at N (or when array is fully iterated)
 		if len(untaintedIndices) >= n {
